@@ -167,7 +167,11 @@ class Tape:
 
 class _RandomState:
   def __init__(self, seed=None):
-    self.seed = seed
+    self.seed_value = seed
+    self.pos = 0
+
+  def seed(self, seed=None):
+    self.seed_value = seed
     self.pos = 0
 
   def shuffle(self, buf):
